@@ -413,22 +413,36 @@ def _native_sweep(script, rule, n_quick, n_thorough):
 
 
 PROPS['C03'] = dict(
-    modules=[],
-    contracts=[],
-    lemmas=[],
+    modules=['contracts.dtw_py'],
+    contracts=['dtw.distance#maxdist'],
+    lemmas=['CellAbove', 'RowAboveLeft', 'RowAboveRight', 'AgreeStep', 'RowAllInf', 'RowLeadInf'],
     bounded={'early-abandoning-native-sweep': _native_sweep(
         'pruning_native.py',
         'random small pairs (lengths <= 6, ndim 1..2) x window/penalty/psi/inner distance x four routes (Python/C distance, '
         'Python/C cost matrix): max_dist at 0.5/0.9/1.1/2.0 times the unbounded distance must give that distance resp. inf; '
         'use_pruning where the Euclidean distance is a valid upper bound must give the unpruned result', 1500, 20000)},
-    level='exploration',
-    level_text='Bounded stand-in only: the pruning invariant (every skipped cell has all predecessors above the bound) is not '
-               'under contract; the real engines are swept against their own unbounded results on small inputs.',
-    level_note='No unbounded claim. The sweep has recorded three families of genuine defects (known_findings.json: KF-C03-1..3).',
-    trusted_base=[],
-    assumptions=['bounded: lengths <= 6, sampled options'],
-    not_decided=['unbounded proof of the PrunedDTW invariant in dtw.distance / dtw.warping_paths / the C kernels'],
-    technique='bounded sweep of the real engines (stand-in; contracts for the pruning invariant are not written)',
+    level='proof',
+    level_text='Python engine, dtw.distance(max_dist=m) without psi: proved for all lengths, values, windows, penalties and '
+               'max_step that the PrunedDTW bookkeeping (start column sc, end column ec, early break, final test) returns '
+               'result_fn of the unbounded accumulated cost W(r, c) whenever that cost is not above the internal bound, and '
+               'inf whenever it is above it. Loop invariant: every buffer cell either equals W or both are above the bound; '
+               'columns left of sc and right of ec are above the bound in W. All other routes (C kernels, cost-matrix '
+               'routines, distance matrices, use_pruning, psi) are bounded sweeps of the real engines only.',
+    level_note='The proof speaks about the internal bound (max_dist squared for the squared-Euclidean inner distance): the '
+               'property excludes a rounding-width neighbourhood of the true distance, and the contract avoids it by '
+               'comparing accumulated costs with the adjusted bound exactly as the code does. Trusted: dvc Python semantics '
+               '(A1), order axioms of non-NaN doubles (level O), monotone non-negative point costs and penalty, solvers (A7). '
+               'The bounded sweep has recorded three families of genuine defects (known_findings.json: KF-C03-1..3), all '
+               'outside the proved route (psi, C cost matrices).',
+    trusted_base=[PY_A1, A3_NUMPY, A7],
+    assumptions=[PY_A1, A3_NUMPY, A7, 'bounded part: lengths <= 6, sampled options'],
+    not_decided=['C kernels with max_dist / pruning: bounded only', 'dtw.warping_paths(max_dist) and the C cost-matrix routines: bounded only',
+                 'use_pruning (bound taken from ub_euclidean): bounded only; its upper-bound argument is C09',
+                 'max_dist together with psi relaxation: bounded only (KF-C03-* live there)',
+                 'distance matrices with max_dist: bounded only'],
+    technique='sidecar contract on the real dtw.distance (AST re-read every run), weakest-precondition style VCs discharged by '
+              'z3 / cvc5; induction lemmas CellAbove / RowAboveLeft / RowAboveRight / AgreeStep proved separately; bounded '
+              'sweep of the real engines for the routes not under contract',
 )
 
 PROPS['C11'] = dict(
